@@ -108,7 +108,7 @@ class FencedDirective(BaseDirective):
         cursor_start = start + len(marker)
 
         _end_pattern = (
-            r"^ {0,3}" + marker[0] + "{" + str(mlen) + r",}"
+            r"^ {0,3}" + re.escape(marker[0]) + "{" + str(mlen) + r",}"
             r"[ \t]*(?:\n|$)"
         )
         _end_re = re.compile(_end_pattern, re.M)
